@@ -63,7 +63,9 @@ ComItems(ds) == [i \in DOMAIN SelectSeq(ds, IsComment) |-> [k |-> "com", text |-
 
 (* The item sequence printing must produce for the subtree at id: tokens,   *)
 (* leaf strings and comments, in the order the schema documents.  Newline   *)
-(* decorations and Before/After spacing add no item.                        *)
+(* decorations and Before/After spacing add no item.  Tokens for which the  *)
+(* ast has no position field are marked "tokn": the Go printer does not     *)
+(* emit them separately, so comments cannot be told apart from either side. *)
 RECURSIVE RenderItems(_, _)
 RenderItems(T, id) ==
   LET n == T.nodes[Abs(id)]
@@ -72,11 +74,30 @@ RenderItems(T, id) ==
         CASE p.k \in {"dec", "decoff"} -> ComItems(DecsAt(n, p.name))
           [] p.k = "special" ->
                LET v == KidIds(n, "Type") IN IF v = <<>> THEN <<>> ELSE ComItems(DecsAt(T.nodes[Abs(v[1])], p.name))
-          [] p.k = "tok" -> IF Holds(p, n) THEN << [k |-> "tok", text |-> TokText(p, n)] >> ELSE <<>>
+          [] p.k = "tok" -> IF Holds(p, n) THEN << [k |-> IF p.pos = "" THEN "tokn" ELSE "tok", text |-> TokText(p, n)] >> ELSE <<>>
           [] p.k = "str" -> << [k |-> "str", text |-> n.s] >>
           [] p.k = "bad" -> << [k |-> "bad", text |-> ""] >>
           [] IsChildPart(p) ->
                LET ks == PartKids(T, n, p) IN FlattenSeq([j \in DOMAIN ks |-> RenderItems(T, ks[j])])
+          [] OTHER -> <<>>
+  IN FlattenSeq([i \in DOMAIN ps |-> item(ps[i])])
+
+(* The same walk, keeping only what carries a position in the restored ast:  *)
+(* tokens with a position field (named pos@node), leaf strings and comments. *)
+RECURSIVE PosItems(_, _)
+PosItems(T, id) ==
+  LET n == T.nodes[Abs(id)]
+      ps == Parts(n)
+      item(p) ==
+        CASE p.k \in {"dec", "decoff"} -> [i \in DOMAIN ComItems(DecsAt(n, p.name)) |-> [k |-> "com", text |-> ComItems(DecsAt(n, p.name))[i].text, n |-> 0]]
+          [] p.k = "special" ->
+               LET v == KidIds(n, "Type")
+                   cs == IF v = <<>> THEN <<>> ELSE ComItems(DecsAt(T.nodes[Abs(v[1])], p.name))
+               IN [i \in DOMAIN cs |-> [k |-> "com", text |-> cs[i].text, n |-> 0]]
+          [] p.k = "tok" -> IF Holds(p, n) /\ p.pos # "" THEN << [k |-> "tok", text |-> p.pos, n |-> n.id] >> ELSE <<>>
+          [] p.k = "str" -> << [k |-> "str", text |-> n.s, n |-> n.id] >>
+          [] IsChildPart(p) ->
+               LET ks == PartKids(T, n, p) IN FlattenSeq([j \in DOMAIN ks |-> PosItems(T, ks[j])])
           [] OTHER -> <<>>
   IN FlattenSeq([i \in DOMAIN ps |-> item(ps[i])])
 
